@@ -275,6 +275,11 @@ func drawC11(t *rapid.T) c11Case {
 		extra := [][]spec.FieldSpec{{pt, ps}, {ps, pt}, {pt, pb, ps}, {pb, pt}}[gen.Uniform(t, "sameSizeOrder", 4)]
 		c.Enc.Type.Fields = append(c.Enc.Type.Fields, extra...)
 	}
+	if gen.Uniform(t, "zeroWidthItems", 5) == 0 {
+		// pointers to values that take no bytes on the wire, as the last field: the
+		// item count of the array is larger than what is left of the buffer
+		c.Enc.Type.Fields = append(c.Enc.Type.Fields, spec.FieldSpec{Go: "PE", JSON: "pe", T: spec.Slice(spec.Ptr(spec.Struct()))})
+	}
 	c.Enc.GoType = c.Enc.Type.GoString()
 	n := gen.UniformRange(t, "nrecords", 1, 4)
 	c.Enc.Records = gen.Records(t, c.Enc.Type, n, gen.ValueOpts{MaxElems: 3})
